@@ -77,6 +77,20 @@ theorem inv_leave {s : Sys} (hi : Inv s) (a : Nat) (hnr : ∀ w, s.actors a = .w
     (by intro w h; cases h) (by intro p h; cases h) (ren_keep hi a .none hnr)
   exact this
 
+theorem inv_leaveW {s : Sys} (hi : Inv s) (a : Nat) (w : Writer) (hnr : ∀ w', s.actors a = .writer w' → w'.pc ≠ .renamed) :
+    Inv (s.leaveW a w) := by
+  unfold Sys.leaveW
+  split
+  · have := inv_setActor hi a .none s.lock
+      (by
+        intro b hb
+        by_cases e : b = a
+        · simp [e, Actor.holds] at hb
+        · simp only [e, if_false] at hb; exact hi.excl b hb)
+      (by intro w h; cases h) (by intro p h; cases h) (ren_keep hi a .none hnr)
+    exact this
+  · exact inv_leave hi a hnr
+
 /-- the stepping actor `a` is replaced by a lock-holding state while it is (or becomes) the lock owner -/
 theorem excl_holder {s : Sys} (hi : Inv s) (a : Nat) (x : Actor)
     (hfree : s.lock = none ∨ s.lock = some a) :
@@ -104,6 +118,191 @@ theorem inv_op_other {s : Sys} (hi : Inv s) (o : DirOp) (hn : ∀ f, o ≠ .rena
   · rcases hi.ren with h | h
     · exact Or.inl (NoRen.op_other hi.fs.coh h o hn)
     · exact Or.inr h
+
+theorem inv_wStep {s : Sys} (hi : Inv s) (a : Nat) (w : Writer) (hw : s.actors a = .writer w)
+    (hs : w.journal = true → w.pc = .compared → ∀ t ∈ w.new.specs, t ∈ s.fs.vis.tables) : Inv (s.wStep a w) := by
+  have hwi := hi.wr a w hw
+  unfold Sys.wStep
+  split
+  · -- idle → locked
+    rename_i hpc
+    have finish : (s.lock = none ∨ s.lock = some a) →
+        Inv ({ s with lock := some a }.setActor a (.writer { w with pc := .locked })) := by
+      intro hfree
+      exact inv_setActor hi a (.writer { w with pc := .locked }) (some a)
+        (excl_holder hi a _ hfree)
+        (by intro w' h; cases h; exact WInv.vac (by simp) (by simp) (by simp) (by simp))
+        (by intro q h; cases h)
+        (ren_keep hi a _ (by intro w' h; rw [hw] at h; cases h; rw [hpc]; decide))
+    by_cases hj : w.journal = true
+    · simp only [hj, if_true]
+      split
+      · rename_i h; simpa [hj] using finish (Or.inr h)
+      · exact hi
+    · simp only [hj, Bool.false_eq_true, if_false]
+      split
+      · rename_i h; simpa [hj] using finish (Or.inl h)
+      · exact hi
+  all_goals
+    rename_i hpc
+    have hah : (s.actors a).holds = true := by rw [hw]; exact writer_holds (by rw [hpc]; decide)
+    have hl := hi.excl a hah
+  · -- locked → tempCreated
+    have := inv_setActor hi a (.writer { w with pc := .tempCreated, tmp := some .partialW }) s.lock
+      (by rw [hl]; exact excl_holder hi a _ (Or.inr hl))
+      (by intro w' h; cases h; exact WInv.vac (by simp) (by simp) (by simp) (by simp))
+      (by intro q h; cases h)
+      (ren_keep hi a _ (by intro w' h; rw [hw] at h; cases h; rw [hpc]; decide))
+    exact this
+  · -- tempCreated → written / leave
+    split
+    · exact inv_leaveW hi a w (by intro w' h; rw [hw] at h; cases h; rw [hpc]; decide)
+    · have := inv_setActor hi a (.writer { w with pc := .written, tmp := some (.complete w.new false) }) s.lock
+        (by rw [hl]; exact excl_holder hi a _ (Or.inr hl))
+        (by intro w' h; cases h; exact WInv.vac (by simp) (by simp) (by simp) (by simp))
+        (by intro q h; cases h)
+        (ren_keep hi a _ (by intro w' h; rw [hw] at h; cases h; rw [hpc]; decide))
+      exact this
+  · -- written → synced
+    have := inv_setActor hi a (.writer { w with pc := .synced, tmp := some (.complete w.new true) }) s.lock
+      (by rw [hl]; exact excl_holder hi a _ (Or.inr hl))
+      (by
+        intro w' h; cases h
+        exact WInv.at_synced rfl rfl)
+      (by intro q h; cases h)
+      (ren_keep hi a _ (by intro w' h; rw [hw] at h; cases h; rw [hpc]; decide))
+    exact this
+  · -- synced → read / leave
+    have htmp := hwi.tmp (Or.inl hpc)
+    have hgood := hi.fs.vis_good
+    split
+    · rename_i hm
+      have := inv_setActor hi a (.writer { w with pc := .read, seen := none }) s.lock
+        (by rw [hl]; exact excl_holder hi a _ (Or.inr hl))
+        (by
+          intro w' h; cases h
+          exact WInv.at_read (Or.inl rfl) htmp (by simpa [SeenOK] using hm))
+        (by intro q h; cases h)
+        (ren_keep hi a _ (by intro w' h; rw [hw] at h; cases h; rw [hpc]; decide))
+      exact this
+    · rename_i m sy hm
+      have hsy : s.fs.vis.manifest = some (.complete m true) := by
+        rcases hgood.1 with e | ⟨m', e⟩
+        · rw [e] at hm; cases hm
+        · rw [e] at hm; cases hm; exact e
+      have := inv_setActor hi a (.writer { w with pc := .read, seen := some m }) s.lock
+        (by rw [hl]; exact excl_holder hi a _ (Or.inr hl))
+        (by
+          intro w' h; cases h
+          exact WInv.at_read (Or.inl rfl) htmp (by simpa [SeenOK] using hsy))
+        (by intro q h; cases h)
+        (ren_keep hi a _ (by intro w' h; rw [hw] at h; cases h; rw [hpc]; decide))
+      exact this
+    · exact inv_leaveW hi a w (by intro w' h; rw [hw] at h; cases h; rw [hpc]; decide)
+  · -- read → compared / leave
+    split
+    · exact inv_leaveW hi a w (by intro w' h; rw [hw] at h; cases h; rw [hpc]; decide)
+    · have := inv_setActor hi a (.writer { w with pc := .compared }) s.lock
+        (by rw [hl]; exact excl_holder hi a _ (Or.inr hl))
+        (by
+          intro w' h; cases h
+          exact WInv.at_read (Or.inr rfl) (hwi.tmp (Or.inr (Or.inl hpc))) (hwi.seen (Or.inl hpc)))
+        (by intro q h; cases h)
+        (ren_keep hi a _ (by intro w' h; rw [hw] at h; cases h; rw [hpc]; decide))
+      exact this
+  · -- compared → validated / leave
+    split
+    · rename_i hv
+      have hseen := hwi.seen (Or.inr (Or.inl hpc))
+      have hgood := hi.fs.vis_good
+      have hpres : ∀ t ∈ w.new.specs, t ∈ s.fs.vis.tables := by
+        by_cases hj : w.journal = true
+        · exact hs hj hpc
+        have hsp : specsPresent s.fs.vis w.seen w.new = true := by
+          simp only [Bool.and_eq_true, Bool.or_eq_true] at hv
+          rcases hv.2 with h | h
+          · exact absurd h hj
+          · exact h
+        intro t ht
+        unfold specsPresent at hsp
+        rw [List.all_eq_true] at hsp
+        have := hsp t ht
+        simp only [Bool.or_eq_true, List.contains_iff_mem] at this
+        rcases this with h1 | h2
+        · -- already named by the manifest read under the lock, which is still the visible one
+          apply hgood.2
+          cases hseenv : w.seen with
+          | none => rw [hseenv] at h1; simp [seenSpecs] at h1
+          | some m =>
+            rw [hseenv] at h1 hseen
+            simp only [SeenOK] at hseen
+            simpa [Dir.specs, hseen, seenSpecs] using h1
+        · exact h2
+      have := inv_setActor hi a (.writer { w with pc := .validated }) s.lock
+        (by rw [hl]; exact excl_holder hi a _ (Or.inr hl))
+        (by
+          intro w' h; cases h
+          exact ⟨fun _ => hwi.tmp (Or.inr (Or.inr (Or.inl hpc))), fun _ => hseen, fun _ => hpres⟩)
+        (by intro q h; cases h)
+        (ren_keep hi a _ (by intro w' h; rw [hw] at h; cases h; rw [hpc]; decide))
+      exact this
+    · exact inv_leaveW hi a w (by intro w' h; rw [hw] at h; cases h; rw [hpc]; decide)
+  · -- validated → renamed
+    have htmp := hwi.tmp (Or.inr (Or.inr (Or.inr hpc)))
+    rw [htmp]
+    simp only
+    have hnr : NoRen s.fs := noRen_of_holder hi a hah (by intro w' h; rw [hw] at h; cases h; rw [hpc]; decide)
+    have hfs := hi.fs.op_rename hnr w.new (hwi.present hpc)
+    refine ⟨hfs, ?_, ?_, ?_, Or.inr ⟨a, { w with pc := .renamed, tmp := none }, by simp [Sys.setActor], rfl⟩⟩
+    · intro b hb
+      simp only [Sys.setActor] at hb ⊢
+      by_cases e : b = a
+      · rw [e]; exact hl
+      · simp only [e, if_false] at hb; exact hi.excl b hb
+    · intro b w' hb
+      simp only [Sys.setActor] at hb
+      by_cases e : b = a
+      · simp only [e, if_true] at hb; cases hb
+        exact WInv.vac (by simp) (by simp) (by simp) (by simp)
+      · simp only [e, if_false] at hb
+        -- any other writer is idle (it cannot hold the LOCK)
+        have hidle : w'.pc = .idle := by
+          by_cases hi' : w'.pc = .idle
+          · exact hi'
+          · have hbh : (s.actors b).holds = true := by rw [hb]; exact writer_holds hi'
+            exact absurd (holders_eq hi hbh hah) e
+        exact WInv.vac (by rw [hidle]; decide) (by rw [hidle]; decide) (by rw [hidle]; decide) (by rw [hidle]; decide)
+    · intro b q hb hk
+      simp only [Sys.setActor] at hb
+      by_cases e : b = a
+      · simp only [e, if_true] at hb; cases hb
+      · simp only [e, if_false] at hb
+        have hbh : (s.actors b).holds = true := by rw [hb]; simp [Actor.holds, hk]
+        exact absurd (holders_eq hi hbh hah) e
+  · -- renamed → dirSynced
+    obtain ⟨hfs, hnr⟩ := hi.fs.syncDir
+    refine ⟨hfs, ?_, ?_, ?_, Or.inl hnr⟩
+    · intro b hb
+      simp only [Sys.setActor] at hb ⊢
+      by_cases e : b = a
+      · rw [e]; exact hl
+      · simp only [e, if_false] at hb; exact hi.excl b hb
+    · intro b w' hb
+      simp only [Sys.setActor] at hb
+      by_cases e : b = a
+      · simp only [e, if_true] at hb; cases hb
+        exact WInv.vac (by simp) (by simp) (by simp) (by simp)
+      · simp only [e, if_false] at hb
+        exact hi.wr b w' hb
+    · intro b q hb hk
+      simp only [Sys.setActor] at hb
+      by_cases e : b = a
+      · simp only [e, if_true] at hb; cases hb
+      · simp only [e, if_false] at hb
+        exact hi.pr b q hb hk
+  · -- dirSynced → leave
+    exact inv_leaveW hi a w (by intro w' h; rw [hw] at h; cases h; rw [hpc]; decide)
+
 
 theorem inv_step (s : Sys) (hi : Inv s) (st : Step) (hs : StepSafe s st) : Inv (s.step st) := by
   cases st with
@@ -176,7 +375,7 @@ theorem inv_step (s : Sys) (hi : Inv s) (st : Step) (hs : StepSafe s st) : Inv (
       split
       · exact hi
       · rename_i hpc
-        exact inv_leave hi a (by intro w' h; rw [hw] at h; cases h; intro e; exact hpc (Or.inl e))
+        exact inv_leaveW hi a w (by intro w' h; rw [hw] at h; cases h; intro e; exact hpc (Or.inl e))
     · exact hi
   | pAbort a =>
     simp only [Sys.step]
@@ -217,6 +416,43 @@ theorem inv_step (s : Sys) (hi : Inv s) (st : Step) (hs : StepSafe s st) : Inv (
         subst this
         rw [hp] at hb; cases hb
       · exact hi
+    · exact hi
+  | spawnJournalWriter a l new gc =>
+    simp only [Sys.step]
+    split
+    · rename_i hn
+      have := inv_setActor hi a (.writer { lastLock := l, new := new, gc := gc, pc := .idle, tmp := none, seen := none, journal := true }) s.lock
+        (by
+          intro b hb
+          by_cases e : b = a
+          · simp [e, Actor.holds] at hb
+          · simp only [e, if_false] at hb; exact hi.excl b hb)
+        (by intro w h; cases h; exact WInv.vac (by simp) (by simp) (by simp) (by simp))
+        (by intro p h; cases h)
+        (ren_keep hi a _ (by intro w h; rw [hn] at h; cases h))
+      exact this
+    · exact hi
+  | jAcquire a =>
+    simp only [Sys.step]
+    split
+    · rename_i hfree
+      refine ⟨hi.fs, ?_, hi.wr, hi.pr, hi.ren⟩
+      intro b hb
+      have := hi.excl b hb
+      rw [hfree] at this; cases this
+    · exact hi
+  | jRelease a =>
+    simp only [Sys.step]
+    split
+    · rename_i hn
+      refine ⟨hi.fs, ?_, hi.wr, hi.pr, hi.ren⟩
+      intro b hb
+      have hb' : (s.actors b).holds = true := hb
+      have hl := hi.excl b hb'
+      have hne : b ≠ a := by intro e; subst e; rw [hn] at hb'; simp [Actor.holds] at hb'
+      simp only [Sys.release]
+      have : s.lock ≠ some a := by rw [hl]; intro h; exact hne (by simpa using h)
+      rw [if_neg this]; exact hl
     · exact hi
   | crash k =>
     simp only [Sys.step]
@@ -277,174 +513,19 @@ theorem inv_step (s : Sys) (hi : Inv s) (st : Step) (hs : StepSafe s st) : Inv (
     simp only [Sys.step]
     split
     · rename_i w hw
-      have hwi := hi.wr a w hw
-      unfold Sys.wStep
       split
-      · -- idle → locked
-        rename_i hpc
-        split
-        · rename_i hfree
-          have := inv_setActor hi a (.writer { w with pc := .locked }) (some a)
-            (excl_holder hi a _ (Or.inl hfree))
-            (by intro w' h; cases h; exact WInv.vac (by simp) (by simp) (by simp) (by simp))
-            (by intro q h; cases h)
-            (ren_keep hi a _ (by intro w' h; rw [hw] at h; cases h; rw [hpc]; decide))
-          exact this
-        · exact hi
-      all_goals
-        rename_i hpc
-        have hah : (s.actors a).holds = true := by rw [hw]; exact writer_holds (by rw [hpc]; decide)
-        have hl := hi.excl a hah
-      · -- locked → tempCreated
-        have := inv_setActor hi a (.writer { w with pc := .tempCreated, tmp := some .partialW }) s.lock
-          (by rw [hl]; exact excl_holder hi a _ (Or.inr hl))
-          (by intro w' h; cases h; exact WInv.vac (by simp) (by simp) (by simp) (by simp))
-          (by intro q h; cases h)
-          (ren_keep hi a _ (by intro w' h; rw [hw] at h; cases h; rw [hpc]; decide))
-        exact this
-      · -- tempCreated → written / leave
-        split
-        · exact inv_leave hi a (by intro w' h; rw [hw] at h; cases h; rw [hpc]; decide)
-        · have := inv_setActor hi a (.writer { w with pc := .written, tmp := some (.complete w.new false) }) s.lock
-            (by rw [hl]; exact excl_holder hi a _ (Or.inr hl))
-            (by intro w' h; cases h; exact WInv.vac (by simp) (by simp) (by simp) (by simp))
-            (by intro q h; cases h)
-            (ren_keep hi a _ (by intro w' h; rw [hw] at h; cases h; rw [hpc]; decide))
-          exact this
-      · -- written → synced
-        have := inv_setActor hi a (.writer { w with pc := .synced, tmp := some (.complete w.new true) }) s.lock
-          (by rw [hl]; exact excl_holder hi a _ (Or.inr hl))
-          (by
-            intro w' h; cases h
-            exact WInv.at_synced rfl rfl)
-          (by intro q h; cases h)
-          (ren_keep hi a _ (by intro w' h; rw [hw] at h; cases h; rw [hpc]; decide))
-        exact this
-      · -- synced → read / leave
-        have htmp := hwi.tmp (Or.inl hpc)
-        have hgood := hi.fs.vis_good
-        split
-        · rename_i hm
-          have := inv_setActor hi a (.writer { w with pc := .read, seen := none }) s.lock
-            (by rw [hl]; exact excl_holder hi a _ (Or.inr hl))
-            (by
-              intro w' h; cases h
-              exact WInv.at_read (Or.inl rfl) htmp (by simpa [SeenOK] using hm))
-            (by intro q h; cases h)
-            (ren_keep hi a _ (by intro w' h; rw [hw] at h; cases h; rw [hpc]; decide))
-          exact this
-        · rename_i m sy hm
-          have hsy : s.fs.vis.manifest = some (.complete m true) := by
-            rcases hgood.1 with e | ⟨m', e⟩
-            · rw [e] at hm; cases hm
-            · rw [e] at hm; cases hm; exact e
-          have := inv_setActor hi a (.writer { w with pc := .read, seen := some m }) s.lock
-            (by rw [hl]; exact excl_holder hi a _ (Or.inr hl))
-            (by
-              intro w' h; cases h
-              exact WInv.at_read (Or.inl rfl) htmp (by simpa [SeenOK] using hsy))
-            (by intro q h; cases h)
-            (ren_keep hi a _ (by intro w' h; rw [hw] at h; cases h; rw [hpc]; decide))
-          exact this
-        · exact inv_leave hi a (by intro w' h; rw [hw] at h; cases h; rw [hpc]; decide)
-      · -- read → compared / leave
-        split
-        · exact inv_leave hi a (by intro w' h; rw [hw] at h; cases h; rw [hpc]; decide)
-        · have := inv_setActor hi a (.writer { w with pc := .compared }) s.lock
-            (by rw [hl]; exact excl_holder hi a _ (Or.inr hl))
-            (by
-              intro w' h; cases h
-              exact WInv.at_read (Or.inr rfl) (hwi.tmp (Or.inr (Or.inl hpc))) (hwi.seen (Or.inl hpc)))
-            (by intro q h; cases h)
-            (ren_keep hi a _ (by intro w' h; rw [hw] at h; cases h; rw [hpc]; decide))
-          exact this
-      · -- compared → validated / leave
-        split
-        · rename_i hv
-          have hsp : specsPresent s.fs.vis w.seen w.new = true := by
-            simp only [Bool.and_eq_true] at hv; exact hv.2
-          have hseen := hwi.seen (Or.inr (Or.inl hpc))
-          have hgood := hi.fs.vis_good
-          have hpres : ∀ t ∈ w.new.specs, t ∈ s.fs.vis.tables := by
-            intro t ht
-            unfold specsPresent at hsp
-            rw [List.all_eq_true] at hsp
-            have := hsp t ht
-            simp only [Bool.or_eq_true, List.contains_iff_mem] at this
-            rcases this with h1 | h2
-            · -- already named by the manifest read under the lock, which is still the visible one
-              apply hgood.2
-              cases hseenv : w.seen with
-              | none => rw [hseenv] at h1; simp [seenSpecs] at h1
-              | some m =>
-                rw [hseenv] at h1 hseen
-                simp only [SeenOK] at hseen
-                simpa [Dir.specs, hseen, seenSpecs] using h1
-            · exact h2
-          have := inv_setActor hi a (.writer { w with pc := .validated }) s.lock
-            (by rw [hl]; exact excl_holder hi a _ (Or.inr hl))
-            (by
-              intro w' h; cases h
-              exact ⟨fun _ => hwi.tmp (Or.inr (Or.inr (Or.inl hpc))), fun _ => hseen, fun _ => hpres⟩)
-            (by intro q h; cases h)
-            (ren_keep hi a _ (by intro w' h; rw [hw] at h; cases h; rw [hpc]; decide))
-          exact this
-        · exact inv_leave hi a (by intro w' h; rw [hw] at h; cases h; rw [hpc]; decide)
-      · -- validated → renamed
-        have htmp := hwi.tmp (Or.inr (Or.inr (Or.inr hpc)))
-        rw [htmp]
-        simp only
-        have hnr : NoRen s.fs := noRen_of_holder hi a hah (by intro w' h; rw [hw] at h; cases h; rw [hpc]; decide)
-        have hfs := hi.fs.op_rename hnr w.new (hwi.present hpc)
-        refine ⟨hfs, ?_, ?_, ?_, Or.inr ⟨a, { w with pc := .renamed, tmp := none }, by simp [Sys.setActor], rfl⟩⟩
-        · intro b hb
-          simp only [Sys.setActor] at hb ⊢
-          by_cases e : b = a
-          · rw [e]; exact hl
-          · simp only [e, if_false] at hb; exact hi.excl b hb
-        · intro b w' hb
-          simp only [Sys.setActor] at hb
-          by_cases e : b = a
-          · simp only [e, if_true] at hb; cases hb
-            exact WInv.vac (by simp) (by simp) (by simp) (by simp)
-          · simp only [e, if_false] at hb
-            -- any other writer is idle (it cannot hold the LOCK)
-            have hidle : w'.pc = .idle := by
-              by_cases hi' : w'.pc = .idle
-              · exact hi'
-              · have hbh : (s.actors b).holds = true := by rw [hb]; exact writer_holds hi'
-                exact absurd (holders_eq hi hbh hah) e
-            exact WInv.vac (by rw [hidle]; decide) (by rw [hidle]; decide) (by rw [hidle]; decide) (by rw [hidle]; decide)
-        · intro b q hb hk
-          simp only [Sys.setActor] at hb
-          by_cases e : b = a
-          · simp only [e, if_true] at hb; cases hb
-          · simp only [e, if_false] at hb
-            have hbh : (s.actors b).holds = true := by rw [hb]; simp [Actor.holds, hk]
-            exact absurd (holders_eq hi hbh hah) e
-      · -- renamed → dirSynced
-        obtain ⟨hfs, hnr⟩ := hi.fs.syncDir
-        refine ⟨hfs, ?_, ?_, ?_, Or.inl hnr⟩
-        · intro b hb
-          simp only [Sys.setActor] at hb ⊢
-          by_cases e : b = a
-          · rw [e]; exact hl
-          · simp only [e, if_false] at hb; exact hi.excl b hb
-        · intro b w' hb
-          simp only [Sys.setActor] at hb
-          by_cases e : b = a
-          · simp only [e, if_true] at hb; cases hb
-            exact WInv.vac (by simp) (by simp) (by simp) (by simp)
-          · simp only [e, if_false] at hb
-            exact hi.wr b w' hb
-        · intro b q hb hk
-          simp only [Sys.setActor] at hb
-          by_cases e : b = a
-          · simp only [e, if_true] at hb; cases hb
-          · simp only [e, if_false] at hb
-            exact hi.pr b q hb hk
-      · -- dirSynced → leave
-        exact inv_leave hi a (by intro w' h; rw [hw] at h; cases h; rw [hpc]; decide)
+      · exact hi
+      · rename_i hj
+        exact inv_wStep hi a w hw (by intro h; exact absurd h hj)
+    · exact hi
+  | jw a =>
+    simp only [Sys.step]
+    split
+    · rename_i w hw
+      split
+      · rename_i hj
+        exact inv_wStep hi a w hw (fun _ => hs w hw hj)
+      · exact hi
     · exact hi
 
 end DoltVerif.ManFs
